@@ -220,11 +220,21 @@ static long alloc_fail_at = 0, alloc_count = 0;
 static FILE *alog = NULL;
 SECTNUM __real_adfGet1FreeBlock(struct AdfVolume *const);
 BOOL __real_adfGetFreeBlocks(struct AdfVolume *const, const int, SECTNUM *const);
+/* every block number the allocator has handed out since "atrack" (the file-handle correspondence dumps these blocks) */
+#define ATRACK_MAX 8192
+static SECTNUM atrack[ATRACK_MAX];
+static int atrack_n = -1;       /* -1 = off */
+static void atrack_add(SECTNUM r) {
+    if (atrack_n < 0 || r < 0) return;
+    for (int i = 0; i < atrack_n; i++) if (atrack[i] == r) return;
+    if (atrack_n < ATRACK_MAX) atrack[atrack_n++] = r;
+}
 SECTNUM __wrap_adfGet1FreeBlock(struct AdfVolume *const vol) {
     alloc_count++;
     if (alloc_fail_at && alloc_count >= alloc_fail_at) return -1;
     SECTNUM r = __real_adfGet1FreeBlock(vol);
     if (alog) fprintf(alog, "A1 %d\n", r);
+    atrack_add(r);
     return r;
 }
 BOOL __wrap_adfGetFreeBlocks(struct AdfVolume *const vol, const int nb, SECTNUM *const l) {
@@ -232,6 +242,7 @@ BOOL __wrap_adfGetFreeBlocks(struct AdfVolume *const vol, const int nb, SECTNUM 
     if (alloc_fail_at && alloc_count >= alloc_fail_at) return FALSE;
     BOOL r = __real_adfGetFreeBlocks(vol, nb, l);
     if (alog) { fprintf(alog, "AN %d %d", nb, r); if (r) for (int i = 0; i < nb; i++) fprintf(alog, " %d", l[i]); fputc('\n', alog); }
+    if (r) for (int i = 0; i < nb; i++) atrack_add(l[i]);
     return r;
 }
 
@@ -291,6 +302,18 @@ static int goto_dir(const char *path) {
     return 0;
 }
 
+static SECTNUM last_lookup = 0;
+/* header sectors found by lookups, by name (hex): "undel <dir> L <namehex>" undeletes the entry a lookup found under that name */
+static struct { char name[64]; SECTNUM sect; } seen_names[128];
+static int n_seen = 0;
+static void remember_name(const char *hex, SECTNUM s) {
+    for (int i = 0; i < n_seen; i++) if (!strcmp(seen_names[i].name, hex)) { seen_names[i].sect = s; return; }
+    if (n_seen < 128) { snprintf(seen_names[n_seen].name, 64, "%s", hex); seen_names[n_seen++].sect = s; }
+}
+static SECTNUM recall_name(const char *hex) {
+    for (int i = 0; i < n_seen; i++) if (!strcmp(seen_names[i].name, hex)) return seen_names[i].sect;
+    return last_lookup;
+}
 static void dump_image(const char *path) {
     FILE *f = fopen(path, "wb");
     if (!f) { out("err dump fopen"); return; }
@@ -530,7 +553,8 @@ int main(int argc, char **argv) {
         }
         else if (!strcmp(c, "undel")) { /* undel <dirpath> <sector> */
             if (goto_dir(a[1])) { out("err nopath"); continue; }
-            ENTER(); RETCODE rc = adfUndelEntry(vol, vol->curDirPtr, atoi(a[2])); LEAVE();
+            /* "L" = header sector found by the last successful lookup (scripts are static: the sector is not known when they are written) */
+            ENTER(); RETCODE rc = adfUndelEntry(vol, vol->curDirPtr, a[2][0] == 'L' ? (na > 3 ? recall_name(a[3]) : last_lookup) : atoi(a[2])); LEAVE();
             out(rc == RC_OK ? "ok" : "err rc=%d", rc);
         }
         else if (!strcmp(c, "bootinst")) {
@@ -559,7 +583,7 @@ int main(int argc, char **argv) {
             if (sigsetjmp(bail, 1)) { in_lib = 0; bail_armed = 0; out("hang"); fflush(stdout); _exit(3); }
             ENTER(); SECTNUM s = adfGetEntryByName(vol, vol->curDirPtr, unhex(a[2]), &e); LEAVE(); bail_armed = 0;
             if (s == -1 || s <= 0) out("err");
-            else { printf("%d ok sect=%d type=%d size=%u acc=%d name=", lineno, s, e.secType, e.secType == ST_FILE ? e.byteSize : 0, e.access);
+            else { last_lookup = s; remember_name(a[2], s); printf("%d ok sect=%d type=%d size=%u acc=%d name=", lineno, s, e.secType, e.secType == ST_FILE ? e.byteSize : 0, e.access);
                    char nm[32]; unsigned l = e.nameLen > 30 ? 30 : e.nameLen; memcpy(nm, e.name, l); nm[l] = 0; printhex(nm); putchar('\n'); }
         }
         else if (!strcmp(c, "dirchains")) { /* dirchains <dirpath> : hash table and chains of a directory, read raw block by block (no library lookup code) */
@@ -700,6 +724,42 @@ int main(int argc, char **argv) {
             out(rc == RC_OK ? "ok pos=%u size=%u eof=%d" : "err pos=%u size=%u eof=%d", adfFileGetPos(fh[h]), adfFileGetSize(fh[h]), adfEndOfFile(fh[h])); }
         else if (!strcmp(c, "stat")) { int h = atoi(a[1]); if (!fh[h]) { out("err nohandle"); continue; }
             out("ok pos=%u size=%u eof=%d", adfFileGetPos(fh[h]), adfFileGetSize(fh[h]), adfEndOfFile(fh[h])); }
+        else if (!strcmp(c, "atrack")) { atrack_n = 0; out("ok"); }
+        else if (!strcmp(c, "hstate")) { /* hstate <h> : the fields of struct AdfFile the handle model (Model/FileIO.v) has, read directly */
+            int h = atoi(a[1]); if (!fh[h]) { out("err nohandle"); continue; }
+            struct AdfFile *f = fh[h];
+            int o = isOFS(f->volume->dosType);
+            const uint8_t *cd = (const uint8_t *)f->currentData;
+            const struct bOFSDataBlock *od = (const struct bOFSDataBlock *)f->currentData;
+            printf("%d ok pos=%u pinx=%u pind=%u ndb=%u cur=%d chg=%d size=%u high=%d first=%d ext=%d dfnv=%08x", lineno,
+                   f->pos, f->posInExtBlk, f->posInDataBlk, f->nDataBlock, f->curDataPtr, f->currentDataBlockChanged ? 1 : 0,
+                   f->fileHdr->byteSize, f->fileHdr->highSeq, f->fileHdr->firstData, f->fileHdr->extension,
+                   o ? fnv32(cd + 24, 488) : fnv32(cd, 512));
+            { uint32_t t = 2166136261u; for (int i = 0; i < 72; i++) t = (t ^ (uint32_t)f->fileHdr->dataBlocks[71 - i]) * 16777619u; printf(" htab=%08x", t); }
+            if (o) printf(" dnext=%d dsize=%u dseq=%u dkey=%d", od->nextData, od->dataSize, od->seqNum, od->headerKey);
+            if (f->currentExt) {
+                uint32_t t = 2166136261u; for (int i = 0; i < 72; i++) t = (t ^ (uint32_t)f->currentExt->dataBlocks[71 - i]) * 16777619u;
+                printf(" xkey=%d xpar=%d xhigh=%d xext=%d xtab=%08x", f->currentExt->headerKey, f->currentExt->parent, f->currentExt->highSeq, f->currentExt->extension, t);
+            } else printf(" xkey=-1");
+            putchar('\n');
+        }
+        else if (!strcmp(c, "fblks")) { /* fblks <h> : the header block of handle h (of the last handle shown when h is closed) and every block handed out
+                                           since "atrack", read raw from the device and shown under each interpretation (OFS data header + payload
+                                           digest, FFS payload digest, header / extension fields) */
+            uint8_t b[512];
+            static SECTNUM last_hdr = 0;
+            { int h = atoi(a[1]); if (h >= 0 && h < NH && fh[h]) last_hdr = fh[h]->fileHdr->headerKey; }
+            #define BEu(p_) (((uint32_t)(p_)[0] << 24) | ((p_)[1] << 16) | ((p_)[2] << 8) | (p_)[3])
+            printf("%d ok", lineno);
+            for (int i = -1; i < (atrack_n < 0 ? 0 : atrack_n); i++) {
+                SECTNUM n = i < 0 ? last_hdr : atrack[i];
+                if (adfReadBlock(vol, (uint32_t)n, b) != RC_OK) { printf(" %d:?", n); continue; }
+                uint32_t t = 2166136261u; for (int k = 0; k < 72; k++) t = (t ^ BEu(b + 24 + 4 * (71 - k))) * 16777619u;
+                printf(" %d:%u:%u:%u:%u:%u:%08x:%08x:%u:%u:%u:%08x", n, BEu(b), BEu(b + 4), BEu(b + 8), BEu(b + 12), BEu(b + 16),
+                       fnv32(b + 24, 488), fnv32(b, 512), BEu(b + 324), BEu(b + 500), BEu(b + 504), t);
+            }
+            putchar('\n');
+        }
         else if (!strcmp(c, "rdblk")) { /* rdblk <n> : adfReadBlock through the volume funnel */
             uint8_t b[512]; ENTER(); RETCODE rc = adfReadBlock(vol, (uint32_t)strtoul(a[1], NULL, 0), b); LEAVE();
             out(rc == RC_OK ? "ok fnv=%08x" : "err rc=%d", rc == RC_OK ? fnv32(b, 512) : (uint32_t)rc); }
